@@ -104,12 +104,31 @@ func (g *genv) entity(t reflect.Type, excluded []string) reflect.Value {
 		e = e.Elem()
 	}
 	for _, f := range excluded {
-		fv := e.FieldByName(goFieldName(f))
-		if fv.IsValid() {
-			fv.Set(reflect.Zero(fv.Type()))
-		}
+		zeroPath(e, strings.Split(f, "/"))
 	}
 	return v
+}
+
+// unsets the field at a directive's path (field names separated by '/', through record pointers)
+func zeroPath(e reflect.Value, path []string) {
+	for e.Kind() == reflect.Ptr {
+		if e.IsNil() {
+			return
+		}
+		e = e.Elem()
+	}
+	if e.Kind() != reflect.Struct || len(path) == 0 {
+		return
+	}
+	fv := e.FieldByName(goFieldName(path[0]))
+	if !fv.IsValid() {
+		return
+	}
+	if len(path) == 1 {
+		fv.Set(reflect.Zero(fv.Type()))
+		return
+	}
+	zeroPath(fv, path[1:])
 }
 
 // *X_PartialUpdate: some fields set, some optional fields deleted, never both; nested patches left empty
@@ -118,8 +137,20 @@ func (g *genv) patch(t reflect.Type, excluded []string) reflect.Value {
 	set := p.Elem().FieldByName("Set_Fields")
 	del := p.Elem().FieldByName("Delete_Fields")
 	ex := map[string]bool{}
+	nested := map[string][][]string{} // Go field name -> excluded paths below that field
 	for _, f := range excluded {
+		if i := strings.Index(f, "/"); i >= 0 {
+			nested[goFieldName(f[:i])] = append(nested[goFieldName(f[:i])], strings.Split(f[i+1:], "/"))
+			continue
+		}
 		ex[goFieldName(f)] = true
+	}
+	typed := func(f reflect.StructField) reflect.Value {
+		v := g.typed(f.Type)
+		for _, p := range nested[f.Name] {
+			zeroPath(v, p)
+		}
+		return v
 	}
 	any := false
 	for i := 0; i < set.NumField(); i++ {
@@ -131,9 +162,9 @@ func (g *genv) patch(t reflect.Type, excluded []string) reflect.Value {
 			continue
 		}
 		if g.r.Chance(50) {
-			set.Field(i).Set(g.typed(f.Type))
+			set.Field(i).Set(typed(f))
 			any = true
-		} else if d := del.FieldByName(f.Name); d.IsValid() && g.r.Chance(40) {
+		} else if d := del.FieldByName(f.Name); d.IsValid() && len(nested[f.Name]) == 0 && g.r.Chance(40) {
 			d.SetBool(true)
 			any = true
 		}
@@ -142,7 +173,7 @@ func (g *genv) patch(t reflect.Type, excluded []string) reflect.Value {
 		for i := 0; i < set.NumField(); i++ {
 			f := set.Type().Field(i)
 			if _, ok := rtypeOf(f.Type); ok && !ex[f.Name] && f.Type.Kind() == reflect.Ptr {
-				set.Field(i).Set(g.typed(f.Type))
+				set.Field(i).Set(typed(f))
 				break
 			}
 		}
